@@ -11,6 +11,7 @@ import (
 	"encoding/binary"
 	"fmt"
 	"sync"
+	"sync/atomic"
 
 	"github.com/c2FmZQ/ech"
 )
@@ -231,6 +232,21 @@ func (kr *keyring) serverKeys(names []string) []ech.Key {
 		out = append(out, ech.Key{Config: kr.cfgs[pk.cfg], PrivateKey: kr.privs[pk.kid].Bytes(), SendAsRetry: true})
 	}
 	return out
+}
+
+// keyOptions hands the key list to NewConn the ways an application may: in one WithKeys option, or spread over two
+// (the split point cycles through the list from call to call). The keys a Conn holds are the concatenation.
+var keySplit atomic.Int64
+
+func keyOptions(keys []ech.Key) []ech.Option {
+	if len(keys) < 2 {
+		return []ech.Option{ech.WithKeys(keys)}
+	}
+	at := int(keySplit.Add(1)) % len(keys)
+	if at == 0 {
+		return []ech.Option{ech.WithKeys(keys)}
+	}
+	return []ech.Option{ech.WithKeys(keys[:at:at]), ech.WithKeys(keys[at:])}
 }
 
 func hpkeAEAD(s string) hpke.AEAD {
